@@ -1,6 +1,6 @@
 (* C07 -- Inline markup renders to the intended structure (partial: see MANIFEST level text). *)
 From Rimu Require Import Base Unicode Regex RegexAnalysis RegexParse Str Types Tables Guards State Inline Block
-  Frame FrameBlock FrameInst OptionsLemmas MiscLemmas MoreLemmas Plain TableFacts PlainDoc Lines.
+  Frame FrameBlock FrameInst OptionsLemmas MiscLemmas MoreLemmas Plain TableFacts PlainDoc Lines MatchExact Emphasis.
 
 (* All other characters come through unchanged except that <, > and & are escaped: inline text over the
    plain alphabet (letters, digits, blanks, newline and the punctuation that is part of no markup; decided for
@@ -44,4 +44,26 @@ Example C07_ex :
   match api_render 40 $"a *b _c_* [d](http://e.f) <g@h.ij> &amp; <" (mkOpts PyNone PyNone PyNone false) S0 with
   | Ok (html, _) => str_eqb html $"<p>a <em>b <em>c</em></em> <a href=""http://e.f"">d</a> <a href=""mailto:g@h.ij"">g@h.ij</a> &amp; &lt;</p>"
   | _ => false end = true.
+Proof. vm_compute. reflexivity. Qed.
+
+(* REAL MARKUP: in plain text, *body* renders to <em>body</em>.  For every pre, body, post over the plain alphabet (body
+   starting and ending with a non-space character), of any length, with the default definitions:
+   spans.render (pre * body * post) = escape pre . <em> . escape body . </em> . escape post *)
+Theorem C07_emphasis : forall n s pre body post,
+  defaults s -> RegexAnalysis.over plain_alphabet pre -> body_ok body -> RegexAnalysis.over plain_alphabet post ->
+  spans_render (S (S (S (S n)))) s (pre ++ star :: body ++ star :: post) =
+  iret (escape pre ++ $"<em>" ++ escape body ++ $"</em>" ++ escape post).
+Proof. exact spans_render_em. Qed.
+Print Assumptions C07_emphasis.
+
+(* the quote match itself: on  *body*post  every derivation of the generated quote pattern ends in one state (exact
+   semantics), so the match handed to fragQuote is the whole quote with the star in group 1 and body in group 2 *)
+Theorem C07_emphasis_match_unique : forall i p body post s', body_ok body -> RegexAnalysis.over plain_alphabet post ->
+  (mx (re_ast qre) (RegexSem.mkSt i p (star :: body ++ star :: post) []) s' <-> s' = em_final i body post).
+Proof. exact em_derivation. Qed.
+Print Assumptions C07_emphasis_match_unique.
+
+Example C07_ex_emphasis :
+  spans_render 6 (ienv_of (document_init S0)) $"A *very* plain word, a < b." =
+  iret $"A <em>very</em> plain word, a &lt; b.".
 Proof. vm_compute. reflexivity. Qed.
